@@ -19,7 +19,7 @@ From Coq Require Import List NArith Bool.
 From NV Require Import Bgzf.Vpos Bgzf.VposProofs Bgzf.Gzi Bgzf.ReaderOps Bgzf.FlatRef Bgzf.ReaderOpsProofs
   Bgzf.ReaderTellProofs Bgzf.WriterTell Bgzf.GziBs Bgzf.GziBsProofs Bgzf.SeekBytes.
 From NV Require Bgzf.Frame Bgzf.Writer Bgzf.WriterTellProofs Bgzf.WriterTellRows Bgzf.Reader Bgzf.Inflate
-  Bgzf.SeekBytesProofs Bgzf.SeekBytesBoundary Sinks.Sink Bgzf.WriterTellSink Bgzf.WriterTellSinkProofs Bgzf.SeekBytesHistProofs.
+  Bgzf.SeekBytesProofs Bgzf.SeekBytesBoundary Sinks.Sink Bgzf.WriterTellSink Bgzf.WriterTellSinkProofs Bgzf.SeekBytesHistProofs Bgzf.SeekBytesShift Bgzf.SeekBytesReloc.
 Import ListNotations.
 Open Scope N_scope.
 
@@ -487,3 +487,84 @@ Theorem c02_seek_then_reads_depend_on_suffix : forall fb fb' s v ns,
   = hops_b Inflate.inflate fb' s (BSeek v :: map BRead ns).
 Proof. exact (SeekBytesHistProofs.seek_then_reads_suffix Inflate.inflate). Qed.
 Print Assumptions c02_seek_then_reads_depend_on_suffix.
+
+(* THE SHIFT THEOREM AFTER A SUCCESSFUL SEEK (wave 10; byte-level reader, byte counts and told
+   positions).  A reader over the bytes fb reads from the start WITHOUT ERROR (any read sizes, any
+   successful seeks in between: ops) and tells v.  A reader over the same bytes in ANY state s
+   (after errors, after failed seeks, anywhere) seeks to v: if the seek succeeds, every read call
+   after it delivers as many bytes as the same call of the reader that simply goes on reading
+   from where v was told, and every position told after those calls is the same:
+       seek(v); read n1; tell; read n2; tell ...  =  (read from the start up to v); read n1; tell ...
+   No well-formedness of the rest of the file is assumed: errors later in the file are met by
+   both readers in the same call.  (The two readers are NOT in the same state after a seek to a
+   block end - the seek loads the next block at once - the proof is a bisimulation.) *)
+Theorem c02_seek_to_told_position_shift : forall fb ops v s s' ns,
+  let s0 := mkBst fb 0 (mkBlk 0 0 0 0) in
+  SeekBytesShift.all_ok (hops_b Inflate.inflate fb s0 ops) ->
+  blk_vpos (s_blk (state_b Inflate.inflate fb s0 ops)) = Ok v ->
+  seek_b Inflate.inflate fb s v = (s', Ok v) ->
+  reads_b Inflate.inflate s' ns = reads_b Inflate.inflate (state_b Inflate.inflate fb s0 ops) ns.
+Proof. exact (SeekBytesShift.seek_then_reads_as_from_start Inflate.inflate). Qed.
+Print Assumptions c02_seek_to_told_position_shift.
+
+(* ... and when v is inside a block (in-block offset > 0) the seek cannot fail and restores the
+   reader state EXACTLY (bytes ahead of the inner stream, Reader::position, the block, its cursor),
+   whatever state the seeking reader was in *)
+Theorem c02_seek_to_told_position_inside_block : forall fb ops v s,
+  let s0 := mkBst fb 0 (mkBlk 0 0 0 0) in
+  SeekBytesShift.all_ok (hops_b Inflate.inflate fb s0 ops) ->
+  blk_vpos (s_blk (state_b Inflate.inflate fb s0 ops)) = Ok v -> 0 < vuncomp v ->
+  seek_b Inflate.inflate fb s v = (state_b Inflate.inflate fb s0 ops, Ok v).
+Proof. exact (SeekBytesShift.seek_told_inside_block_succeeds Inflate.inflate). Qed.
+Print Assumptions c02_seek_to_told_position_inside_block.
+
+(* the form the correspondence check runs (kind hshift: SeekBytesShift.hshift_run is compared with
+   two real readers; the harness asserts the conclusions on the REAL rows) *)
+Theorem c02_hshift_run_shift : forall fb ops1 mid ns h1 v rowsA x t rowsB,
+  SeekBytesShift.hshift_run fb ops1 mid ns = (h1, Ok v, rowsA, Some (x, t, rowsB)) ->
+  SeekBytesShift.all_ok h1 ->
+  (x = Ok v -> rowsB = rowsA) /\ (0 < vuncomp v -> x = Ok v /\ t = Ok v).
+Proof.
+  intros fb ops1 mid ns h1 v rowsA x t rowsB H Hok. split.
+  - exact (SeekBytesShift.hshift_run_shift fb ops1 mid ns h1 v rowsA x t rowsB H Hok).
+  - exact (SeekBytesShift.hshift_run_inside_block fb ops1 mid ns h1 v rowsA x t rowsB H Hok).
+Qed.
+Print Assumptions c02_hshift_run_shift.
+
+(* THE RELOCATION FORM of the shift theorem (wave 10): a reader in any state seeks to v = (c, u) in
+   the bytes fb and the seek succeeds.  Then a FRESH reader over the bytes of fb from c on - a file
+   of its own - seeks to (0, u) successfully, and every read call after the first seek returns the
+   byte count, and tells the position MOVED BY c, of the same call after the second
+   (SeekBytesReloc.sht: c added to the compressed part; the 2^48 assert of
+   Block::virtual_position is evaluated on the moved position). *)
+Theorem c02_seek_then_reads_relocated : forall fb s v s' ns,
+  seek_b Inflate.inflate fb s v = (s', Ok v) ->
+  let fb' := bytes_from fb (vcomp v) in
+  let v' := pack 0 (vuncomp v) in
+  let k := seek_b Inflate.inflate fb' (mkBst fb' 0 (mkBlk 0 0 0 0)) v' in
+  snd k = Ok v' /\
+  reads_b Inflate.inflate s' ns
+  = map (SeekBytesReloc.shrow (vcomp v)) (reads_b Inflate.inflate (fst k) ns).
+Proof. exact (SeekBytesReloc.seek_then_reads_reloc_fresh Inflate.inflate). Qed.
+Print Assumptions c02_seek_then_reads_relocated.
+
+(* the state itself: Reader::position and the block position moved by c, everything else equal;
+   and a successful seek does not depend on the state of the reader that makes it *)
+Theorem c02_seek_state_relocated : forall fb s t v s',
+  seek_b Inflate.inflate fb s v = (s', Ok v) ->
+  seek_b Inflate.inflate fb t v = (s', Ok v) /\
+  exists s'', seek_b Inflate.inflate (bytes_from fb (vcomp v)) s (pack 0 (vuncomp v))
+              = (s'', Ok (pack 0 (vuncomp v))) /\ s' = SeekBytesReloc.shs (vcomp v) s''.
+Proof.
+  intros fb s t v s' H. split.
+  - exact (SeekBytesReloc.seek_b_ok_any_state Inflate.inflate fb s t v s' H).
+  - exact (SeekBytesReloc.seek_reloc Inflate.inflate fb s v s' H).
+Qed.
+Print Assumptions c02_seek_state_relocated.
+
+(* the form the correspondence check runs (kind hreloc) *)
+Theorem c02_hreloc_run_relocated : forall fb mid v ns x t rowsB x' t' rowsC tm rowsM,
+  SeekBytesReloc.hreloc_run fb mid v ns = ((x, t, rowsB), (x', t', rowsC), (tm, rowsM)) ->
+  x = Ok v -> x' = Ok (pack 0 (vuncomp v)) /\ t = tm /\ rowsB = rowsM.
+Proof. exact SeekBytesReloc.hreloc_run_reloc. Qed.
+Print Assumptions c02_hreloc_run_relocated.
